@@ -46,6 +46,12 @@ ASSUMPTIONS = [
     "exception classes are compared by category: KeyError (incl. BadRequestKeyError), IndexError, "
     "TypeError, ValueError",
     "keys a/A/b, values '1'/'x'/None/int; size bound on stored values stated in evidence 'bound'",
+    "every family's read battery is generated from one table of read operations (READ_OPS): a read implemented "
+    "by several families is exercised on all of them (EnvironHeaders gets every Headers read); integer and "
+    "slice access use negative and out-of-range positions with Python list semantics in the model",
+    "hs[i] = v where v's twin (other letter case) sits at another position: the result must be a valid set that "
+    "contains the spelling v, all other elements untouched (either position may survive), or a refusal that "
+    "changes nothing; EnvironHeaders[int] / [slice] may raise KeyError or answer like Headers",
     "ImmutableList.clear() (not blocked at this commit) is accepted either way: ImmutableList is a "
     "private helper the statement does not list",
 ]
@@ -2113,10 +2119,16 @@ def hist_ops(fam, tier, depth):
                and not (o[0] in ("set", "add") and len(o[2]) > 1)]
         if depth >= 4:
             ops = [o for o in ops if not (len(o) > 1 and o[1] == "b") and o[0] not in ("setitem", "remove")]
+        if depth >= 4:
+            ops = [o for o in ops if not (o[0] in ("setitem_i", "delitem_i") and o[1] in (2, -3, -6))
+                   and not (o[0] in ("setitem_s", "delitem_s") and o[1] != (1, None))]
         if depth >= 3:
             ops = [o for o in ops if not (o[0] in ("setitem_i", "delitem_i") and o[1] in (1, 5))
                    and not (o[0] in ("setitem_s", "delitem_s") and o[1] not in ((0, 1), (1, None)))
                    and not (o[0] in ("extend", "update", "ior") and o[1][0] not in ("pairs", "dictlist", "hdrs"))]
+    if fam == "HeaderSet" and depth >= 4:
+        ops = [o for o in ops if not (o[0] in ("setitem", "delitem") and o[1] in (2, -3, 5, -5))
+               and not (o[0] == "setitem" and o[2] == "qux") and not (o[0] in ("add", "remove", "discard") and o[1] == "FOO")]
     return ops
 
 
